@@ -205,8 +205,8 @@ impl Property for C12 {
         let max = tier.pick(40usize, 70usize);
         // one op in ten has all its account roles aliased to one account (from == to == spender)
         let aliased_op = (op(), 0u8..10).prop_map(|(o, r)| if r == 0 { alias_all(o) } else { o });
-        (0u16..300, crate::engine::opt_of(idx()), proptest::collection::vec(aliased_op, 0..max))
-            .prop_map(|(start_seq, initial_minter, ops)| Case { start_seq, initial_minter, ops })
+        (0u16..300, crate::engine::opt_of(idx()), proptest::collection::vec(aliased_op, 0..max), crate::engine::repeats())
+            .prop_map(|(start_seq, initial_minter, ops, reps)| Case { start_seq, initial_minter, ops: crate::engine::with_repeats(ops, &reps) })
             .boxed()
     }
     fn fixed_cases(&self, _tier: Tier) -> Vec<Case> {
